@@ -159,6 +159,22 @@ def run(tier, seed, replay=None):
             except Exception as ex:
                 V.fail("amen_solve raises %s [tiny zero-sum %s]" % (type(ex).__name__, lname), dict(desc, exc=str(ex)[:200]))
             dist["tiny zero-sum " + lname] = dist.get("tiny zero-sum " + lname, 0) + 1
+            # the exact solution as initial guess (every local residual vanishes): the call returns, with the guess
+            import signal
+            def _alarm(sig_, frm_): raise TimeoutError("no return within 120 s")
+            xs_ = torchtt.ones(Nt, dtype=dt_) * 0.5; As_ = torchtt.eye(Nt, dtype=dt_) * 2.0; bs_ = torchtt.ones(Nt, dtype=dt_)
+            old_h = signal.signal(signal.SIGALRM, _alarm); signal.alarm(120)
+            try:
+                xr_ = torchtt.solvers.amen_solve(As_, bs_, x0=xs_, eps=1e-8, nswp=10, max_full=0, local_solver=ls_, verbose=False, use_cpp=False)
+                res_ = float((As_ @ xr_ - bs_).norm() / bs_.norm())
+                if not res_ <= CONST * 1e-8: V.fail("residual exceeds %g*eps [exact guess %s]" % (CONST, lname), {"N": Nt, "local_solver": lname, "rel_residual": res_, "A": "2*eye", "b": "ones", "x0": "0.5*ones"})
+            except TimeoutError as ex:
+                V.fail("amen_solve does not return when the guess is the exact solution [%s]" % lname, {"N": Nt, "local_solver": lname, "A": "2*eye", "b": "ones", "x0": "0.5*ones", "max_full": 0})
+            except Exception as ex:
+                V.fail("amen_solve raises %s [exact guess %s]" % (type(ex).__name__, lname), {"N": Nt, "local_solver": lname, "exc": str(ex)[:200]})
+            finally:
+                signal.alarm(0); signal.signal(signal.SIGALRM, old_h)
+            dist["exact guess " + lname] = dist.get("exact guess " + lname, 0) + 1
     for i in range(n):
         A, b, N, kind = gen_system(rng, torch, torchtt)
         eps = rng.choice([1e-10, 1e-8, 1e-6, 1e-4, 1e-3])
